@@ -261,9 +261,20 @@ Section C04_modal.
                 H_curl_grad H_leibniz_curl _ r w).
     reflexivity.
   Qed.
-  (* The moist temperature equation at the modal layer is C04_temperature_modal_invariance with
-     temp_tendency_explicit_moist; its nodal core is C04_tref_split_invariance_moist (the modal wrapper
-     is stated for the dry adiabatic term only). *)
+  (** modal temperature tendency with the moist adiabatic term *)
+  Theorem C04_temperature_modal_invariance_moist (T1 T2 : nat -> F) r w :
+    (r < cK c)%nat ->
+    (forall p, 1 + (mCpv m / (cR c / ckappa c) - 1) * q p r <> 0) ->
+    temp_tendency_explicit_moist W P toM divc clip (with_tref c T1) m (Xs P X T T1) q r w
+    + temp_tendency_implicit W (with_tref c T1) dv r w
+    = temp_tendency_explicit_moist W P toM divc clip (with_tref c T2) m (Xs P X T T2) q r w
+      + temp_tendency_implicit W (with_tref c T2) dv r w.
+  Proof.
+    intros Hr Hq.
+    rewrite !(temperature_modal_closed_moist two_nz feqb_sound W P toN toM divc clip toM_lin divc_lin clip_lin c th2_nz
+                X T dv div_nodal m q H_roundtrip H_div_vel _ r w Hr Hq).
+    reflexivity.
+  Qed.
 End C04_modal.
 
 (** *** a concrete instance over Qc: uneven 3-layer levels, non-uniform profiles *)
@@ -429,6 +440,7 @@ Print Assumptions C04_column_commutes.
 Print Assumptions C04_temperature_modal_invariance.
 Print Assumptions C04_divergence_invariance.
 Print Assumptions C04_vorticity_invariance.
+Print Assumptions C04_temperature_modal_invariance_moist.
 Print Assumptions C04_divergence_invariance_moist.
 Print Assumptions C04_vorticity_invariance_moist.
 Print Assumptions C04_unique_branch_zero.
